@@ -636,7 +636,14 @@ func init() {
 							case class < 2 && op && k.name == "Expr" && y.kind != "UnaryOperator" && y.kind != "Call":
 								blame, class = "drops-parens-of-operator-operand", 2
 							case class < 2 && y.kind == "ChanType" && ch.kind == "ChanType":
-								blame, class = "chan-of-chan-ambiguous", 2
+								// the known finding is chan (<-chan T) only; the other pairs of directions have their own signature
+								oc, _ := y.node.(*ast.ChanType)
+								ic, _ := ch.node.(*ast.ChanType)
+								if oc != nil && ic != nil && oc.Direction == ast.NoDirection && ic.Direction == ast.ReceiveDirection {
+									blame, class = "chan-of-chan-ambiguous", 2
+								} else if oc != nil && ic != nil {
+									blame, class = fmt.Sprintf("chantype-%d-of-chantype-%d", oc.Direction, ic.Direction), 2
+								}
 							case class < 1 && (ch.kind == "FuncType" || ch.kind == "ChanType"):
 								blame, class = y.kind+"-"+k.name+"-"+ch.kind, 1
 							}
